@@ -43,7 +43,13 @@ EXTENDS Integers, Sequences, FiniteSets, TLC, Json
 \* "lmorig" is the voxel content of the blocks of "lm" that existed before the hostile requests:
 \* requests that write blocks or raw volumes name other blocks and must leave it alone, requests
 \* that relabel bodies (merge, cleave, split, renumber, mappings) name it.
-Scopes == {"lm", "lmorig", "lmi", "ann", "kv", "nj", "roi", "gray", "newinst", "meta"}
+Scopes == {"lm", "lmorig", "lmi", "ann", "kv", "nj", "roi", "gray", "newinst", "meta",
+           \* the second world ("wvox": voxel types and a multi-scale labelmap)
+           "lms", "g16", "rgba",
+           \* the third world ("wleg": datatypes of the older label stack, label counts, blobs per supervoxel, tiles)
+           "lb", "lv", "la", "lann", "lsz", "tsv", "tiles",
+           \* server-wide settings (nothing of the snapshot belongs to them)
+           "srv"}
 
 F(n, k, fl) == [n |-> n, k |-> k, f |-> fl]
 
@@ -87,6 +93,12 @@ F(n, k, fl) == [n |-> n, k |-> k, f |-> fl]
 (*         late   - the argument is used after the command has been answered *)
 (*                  ("Started ..."), or its error goes to the server log only *)
 (*         newname- the argument is a name to be given (an empty name is one) *)
+(* Added with the growth round (JSON / URL):                                 *)
+(*         fixed  - the JSON list has a fixed arity (a point, a resolution)  *)
+(*         num    - the JSON string holds a number (configuration values)    *)
+(*         syncnames - the JSON string lists instance names to sync with     *)
+(*         uuidref- the JSON string names a version                          *)
+(*  URL    : uenum (a query option with documented values)                   *)
 (***************************************************************************)
 
 \* ---- binary layouts ------------------------------------------------------
@@ -167,6 +179,49 @@ BranchObj == << F("root", "jobj", {"typed"}), F("branch", "jstr", {"typed"}), F(
 InstanceCfg == << F("root", "jobj", {"typed"}), F("typename", "jstr", {"typed", "enum"}), F("dataname", "jstr", {"typed"}),
                   F("BlockSize", "jstr", {"typed", "triple"}), F("VoxelSize", "jstr", {"typed", "triple"}) >>
 
+\* ---- layouts of the growth round ----
+\* instance metadata (unversioned, persistent): a resolution is a list of exactly three numbers,
+\* extents are two points, a sync request lists instance names, configuration values are strings
+PtFixed(n) == << F(n, "jlist", {"typed", "fixed"}), F(n \o ".x", "jint", {"typed", "i32"}),
+                 F(n \o ".y", "jint", {"typed", "i32"}), F(n \o ".z", "jint", {"typed", "i32"}) >>
+Resolution == << F("root", "jlist", {"typed", "fixed"}), F("rx", "jint", {"typed"}), F("ry", "jint", {"typed"}), F("rz", "jint", {"typed"}) >>
+ExtentsObj == << F("root", "jobj", {"typed"}) >> \o PtFixed("MinPoint") \o PtFixed("MaxPoint")
+SyncObj    == << F("root", "jobj", {"typed"}), F("sync", "jstr", {"typed", "syncnames"}) >>
+LMInfoCfg  == << F("root", "jobj", {"typed"}), F("MaxDownresLevel", "jstr", {"typed", "num"}) >>
+\* repository / version level
+AliasObj   == << F("root", "jobj", {"typed"}), F("alias", "jstr", {"typed"}), F("description", "jstr", {"typed"}) >>
+LogObj     == << F("root", "jobj", {"typed"}), F("log", "jlist", {"typed"}), F("log.1", "jstr", {"typed"}) >>
+NoteObj    == << F("root", "jobj", {"typed"}), F("note", "jstr", {"typed"}) >>
+TagObj     == << F("root", "jobj", {"typed"}), F("tag", "jstr", {"typed"}), F("note", "jstr", {"typed"}) >>
+MergeObj   == << F("root", "jobj", {"typed"}), F("mergeType", "jstr", {"typed", "enum"}), F("note", "jstr", {"typed"}),
+                 F("parents", "jlist", {"typed"}), F("parents.1", "jstr", {"typed", "uuidref"}), F("parents.2", "jstr", {"typed", "uuidref"}) >>
+ResolveObj == << F("root", "jobj", {"typed"}), F("data", "jlist", {"typed"}), F("data.1", "jstr", {"typed"}), F("note", "jstr", {"typed"}),
+                 F("parents", "jlist", {"typed"}), F("parents.1", "jstr", {"typed", "uuidref"}), F("parents.2", "jstr", {"typed", "uuidref"}) >>
+SettingsObj == << F("root", "jobj", {"typed"}), F("gc", "jstr", {"typed", "num"}), F("throttle", "jstr", {"typed", "num"}) >>
+\* annotation label posts: label -> elements
+\* (each value is a string that holds the JSON array of elements)
+AnnLabels  == << F("root", "jobj", {"typed"}), F("labelkey", "jkey", {}), F("elems", "jstr", {"typed"}) >>
+\* protobuf Keys: repeated string
+PBKeys     == << F("k.tag", "tag", {}), F("k.len", "len", {}), F("k", "blob", {}),
+                 F("k.tag", "tag", {"cutok"}), F("k.len", "len", {}), F("k", "blob", {}) >>
+\* neuron-annotation schema (free-form JSON object)
+NJSchema   == << F("root", "jobj", {"typed"}), F("type", "jstr", {}), F("properties", "jobj", {}), F("bodyid", "jobj", {}), F("bodyid.type", "jstr", {}) >>
+\* imagetile metadata
+TileSpec   == << F("root", "jobj", {"typed"}), F("MinTileCoord", "jlist", {"typed"}), F("min.x", "jint", {"typed", "i32"}), F("min.y", "jint", {"typed", "i32"}), F("min.z", "jint", {"typed", "i32"}),
+                 F("MaxTileCoord", "jlist", {"typed"}), F("max.x", "jint", {"typed", "i32"}), F("max.y", "jint", {"typed", "i32"}), F("max.z", "jint", {"typed", "i32"}),
+                 F("Levels", "jobj", {"typed"}), F("level0", "jobj", {"typed"}),
+                 F("Resolution", "jlist", {"typed"}), F("res.x", "jint", {"typed"}), F("res.y", "jint", {"typed"}), F("res.z", "jint", {"typed"}),
+                 F("TileSize", "jlist", {"typed"}), F("ts.x", "jint", {"typed", "i32"}), F("ts.y", "jint", {"typed", "i32"}), F("ts.z", "jint", {"typed", "i32"}) >>
+\* a tar archive of two files (tarsupervoxels load): headers, contents padded to 512 bytes, end marker
+\* (a cut inside a content field may fall into its padding: every file is then complete)
+TarEntry(first) == << F("hdr", "hdr", IF first THEN {} ELSE {"cutok"}), F("content", "blob", {"midok"}) >>
+TarFile == TarEntry(TRUE) \o TarEntry(FALSE) \o << F("end", "rest", {"cutok", "midok"}) >>
+\* the same layout read after the request has been answered (errors are logged only)
+Late(fields) == [i \in 1..Len(fields) |-> [fields[i] EXCEPT !.f = @ \cup {"late"}]]
+\* labelarray block stream: like the labelmap one
+\* a dense voxel block sequence (imageblk POST blocks): span blocks of BlockSize voxels
+VoxBlocks == << F("voxels", "blob", {}) >>
+
 \* ---- RPC argument layouts ----
 NodeCmd == << F("uuid", "auuid", {"exists"}), F("data", "aname", {"exists"}), F("word", "aword", {}) >>
 RepoCmd == << F("uuid", "auuid", {"exists"}), F("word", "aword", {}) >>
@@ -180,14 +235,21 @@ Vol3(hugerej) == << F("shape", "ushape", {}), F("size", "usize", IF hugerej THEN
 (* (the body size is declared by the URL: extra bytes are outside it),      *)
 (* mut (mutating request), wrap (the body is sent through a compression     *)
 (* wrapper selected in the query string).                                   *)
+(* Growth round: blocks (the body is a stream of label blocks: the "geom"   *)
+(* cases apply), persist (an accepted request changes unversioned state of  *)
+(* the instance or the server: the harness continues on a fresh world),     *)
+(* dag (the request addresses the repository / version graph or the server, *)
+(* not a versioned instance), noctl (no well-formed request is accepted in  *)
+(* the harness world: no positive control), wvox / wleg (the row runs in    *)
+(* the second / third world), freeform (the JSON body is stored as a blob). *)
 (***************************************************************************)
 EP(name, scope, body, fl, fields, url) ==
     [name |-> name, scope |-> scope, body |-> body, f |-> fl, fields |-> fields, url |-> url]
 
-Endpoints == <<
+BaseEndpoints == <<
     \* label data
-    EP("lm.blocks",      "lm",   "bin",  {"mut", "emptyok"}, BlockStream, <<>>),
-    EP("lmi.ingest",     "lmi",  "bin",  {"mut", "emptyok"}, BlockStream, <<>>),
+    EP("lm.blocks",      "lm",   "bin",  {"mut", "emptyok", "blocks"}, BlockStream, <<>>),
+    EP("lmi.ingest",     "lmi",  "bin",  {"mut", "emptyok", "blocks"}, BlockStream, <<>>),
     EP("lm.raw",         "lm",   "bin",  {"mut", "extendrej"}, << F("voxels", "blob", {}) >>, Vol3(TRUE)),
     EP("lm.rawgz",       "lm",   "bin",  {"mut", "extendrej"}, << F("zbody", "gz", {}), F("voxels", "blob", {"in"}) >>, <<>>),
     EP("gray.raw",       "gray", "bin",  {"mut", "extendrej"}, << F("voxels", "blob", {}) >>, Vol3(TRUE)),
@@ -217,7 +279,7 @@ Endpoints == <<
     EP("roi.roi",        "roi",  "json", {"mut"}, ROISpans, <<>>),
     EP("roi.ptquery",    "roi",  "json", {}, Points, <<>>),
     \* repo level
-    EP("repo.instance",  "newinst", "json", {"mut"}, InstanceCfg, <<>>),
+    EP("repo.instance",  "newinst", "json", {"mut", "dag"}, InstanceCfg, <<>>),
     \* URL-only endpoints (GET unless flagged mut)
     EP("lm.getraw",      "lm",   "none", {}, <<>>, Vol3(TRUE)),
     EP("lm.getblocks",   "lm",   "none", {}, <<>>, << F("size", "usize", {}), F("offset", "uoff", {}) >>),
@@ -251,7 +313,7 @@ Endpoints == <<
     EP("nj.getkey",      "nj",   "none", {}, <<>>, << F("id", "ulabel", {}) >>),
     EP("roi.mask",       "roi",  "none", {}, <<>>, Vol3(TRUE)),
     EP("roi.partition",  "roi",  "none", {}, <<>>, << F("batchsize", "uint", {"zerorej", "query"}) >>),
-    EP("node.uuid",      "meta", "none", {}, <<>>, << F("uuid", "ukey", {}) >>),
+    EP("node.uuid",      "meta", "none", {"dag", "noverb"}, <<>>, << F("uuid", "ukey", {}) >>),
     EP("lm.proximity",   "lm",   "none", {}, <<>>, << F("label1", "ulabel", {"l0rej"}), F("label2", "ulabel", {"l0rej"}) >>),
     EP("lm.history",     "lm",   "none", {}, <<>>, << F("label", "ulabel", {"l0rej"}), F("from", "ukey", {}), F("to", "ukey", {}) >>),
     EP("lm.supervoxelsizes", "lm", "none", {}, <<>>, << F("label", "ulabel", {"l0rej"}) >>),
@@ -262,8 +324,8 @@ Endpoints == <<
     EP("kv.keyrangevalues", "kv", "none", {}, <<>>, << F("first", "ukey", {}), F("last", "ukey", {}) >>),
     EP("kv.getkeyvalues", "kv",  "json", {}, KeyList, <<>>),
     EP("kv.tags",        "kv",   "json", {"mut", "emptyok"}, TagsObj, <<>>),
-    EP("node.commit",    "meta", "json", {"mut"}, CommitObj, <<>>),
-    EP("node.branch",    "meta", "json", {"mut"}, BranchObj, <<>>),
+    EP("node.commit",    "meta", "json", {"mut", "dag"}, CommitObj, <<>>),
+    EP("node.branch",    "meta", "json", {"mut", "dag"}, BranchObj, <<>>),
     \* commands of the RPC path: the "url" is the argument list after the first word ("node" / "repo" / ...)
     EP("rpc.kv.put",        "kv",   "none", {"mut", "rpc"}, <<>>, NodeCmd \o << F("key", "akey", {}), F("stdin", "ainput", {}) >>),
     EP("rpc.nj.put",        "nj",   "none", {"mut", "rpc"}, <<>>, NodeCmd \o << F("key", "akey", {}), F("stdin", "ainput", {}) >>),
@@ -294,6 +356,133 @@ Endpoints == <<
     EP("rpc.types.help",    "meta", "none", {"rpc"},        <<>>, << F("type", "atype", {"exists"}), F("word", "aword", {}) >>)
 >>
 
+(***************************************************************************)
+(* Rows of the growth round.                                                *)
+(***************************************************************************)
+GrowthEndpoints == <<
+    \* instance metadata: unversioned and persistent
+    EP("lm.resolution",  "lm",   "json", {"mut", "persist"}, Resolution, <<>>),
+    EP("lm.extents",     "lm",   "json", {"mut", "persist"}, ExtentsObj, <<>>),
+    EP("lm.info",        "lm",   "json", {"mut", "persist", "emptyok"}, LMInfoCfg, <<>>),
+    EP("lm.tags",        "lm",   "json", {"mut", "emptyok"}, TagsObj, <<>>),
+    EP("gray.resolution", "gray", "json", {"mut", "persist"}, Resolution, <<>>),
+    EP("gray.extents",   "gray", "json", {"mut", "persist"}, ExtentsObj, <<>>),
+    EP("ann.sync",       "ann",  "json", {"mut", "persist", "emptyok"}, SyncObj, <<>>),
+    EP("ann.tags",       "ann",  "json", {"mut", "emptyok"}, TagsObj, <<>>),
+    EP("nj.tags",        "nj",   "json", {"mut", "emptyok"}, TagsObj, <<>>),
+    \* dense voxel blocks of an image instance: <span> blocks starting at a block coordinate
+    EP("gray.blocks",    "gray", "bin",  {"mut"}, VoxBlocks, << F("coord", "ucoord", {}), F("span", "uint", {}) >>),
+    \* second world: a multi-scale labelmap, 16-bit and RGBA voxels
+    EP("lms.blocks.downres", "lms", "bin", {"mut", "emptyok", "blocks", "wvox"}, BlockStream, <<>>),
+    EP("lms.blocks.scale",   "lms", "bin", {"mut", "emptyok", "blocks", "wvox"}, BlockStream, << F("scale", "uint", {"query"}) >>),
+    EP("lms.blocks.noindex", "lms", "bin", {"mut", "emptyok", "blocks", "wvox"}, BlockStream, <<>>),
+    EP("lms.ingest.scale",   "lms", "bin", {"mut", "emptyok", "blocks", "wvox"}, BlockStream, << F("scale", "uint", {"query"}) >>),
+    EP("lms.raw",            "lms", "bin", {"mut", "extendrej", "wvox"}, << F("voxels", "blob", {}) >>, Vol3(TRUE)),
+    EP("lms.getraw.scale",   "lms", "none", {"wvox"}, <<>>, << F("scale", "uint", {"query"}) >>),
+    EP("lms.getblocks.scale", "lms", "none", {"wvox"}, <<>>, << F("scale", "uint", {"query"}) >>),
+    EP("lms.specificblocks.scale", "lms", "none", {"wvox"}, <<>>, << F("blocks", "ucoord", {"query"}), F("scale", "uint", {"query"}) >>),
+    EP("lms.sparsevol.scale", "lms", "none", {"wvox"}, <<>>, << F("label", "ulabel", {"l0rej"}), F("scale", "uint", {"query"}) >>),
+    EP("g16.raw",        "g16",  "bin",  {"mut", "extendrej", "wvox"}, << F("voxels", "blob", {}) >>, Vol3(TRUE)),
+    EP("g16.blocks",     "g16",  "bin",  {"mut", "wvox"}, VoxBlocks, << F("coord", "ucoord", {}), F("span", "uint", {}) >>),
+    EP("g16.getraw",     "g16",  "none", {"wvox"}, <<>>, Vol3(TRUE)),
+    EP("g16.getblocks",  "g16",  "none", {"wvox"}, <<>>, << F("coord", "ucoord", {}), F("span", "uint", {}) >>),
+    EP("rgba.raw",       "rgba", "bin",  {"mut", "extendrej", "wvox"}, << F("voxels", "blob", {}) >>, Vol3(TRUE)),
+    EP("rgba.blocks",    "rgba", "bin",  {"mut", "wvox"}, VoxBlocks, << F("coord", "ucoord", {}), F("span", "uint", {}) >>),
+    EP("rgba.getraw",    "rgba", "none", {"wvox"}, <<>>, Vol3(TRUE)),
+    EP("rgba.getslice",  "rgba", "none", {"wvox"}, <<>>, << F("shape", "ushape", {}), F("size", "usize", {}), F("offset", "uoff", {}) >>),
+    \* repository, version and server level
+    EP("repos.new",      "meta", "json", {"mut", "dag", "emptyok"}, AliasObj, <<>>),
+    EP("repo.info",      "meta", "json", {"mut", "dag", "emptyok"}, AliasObj, <<>>),
+    EP("repo.log",       "meta", "json", {"mut", "dag"}, LogObj, <<>>),
+    EP("repo.merge",     "meta", "json", {"mut", "dag"}, MergeObj, <<>>),
+    EP("repo.resolve",   "meta", "json", {"mut", "dag"}, ResolveObj, <<>>),
+    EP("node.note",      "meta", "json", {"mut", "dag"}, NoteObj, <<>>),
+    EP("node.log",       "meta", "json", {"mut", "dag"}, LogObj, <<>>),
+    EP("node.newversion", "meta", "json", {"mut", "dag", "emptyok"}, NoteObj, <<>>),
+    EP("node.tag",       "meta", "json", {"mut", "dag"}, TagObj, <<>>),
+    EP("server.settings", "srv", "json", {"mut", "dag", "persist", "emptyok"}, SettingsObj, <<>>),
+    EP("server.reloadauth", "srv", "none", {"mut", "dag", "noctl"}, <<>>, <<>>),
+    EP("server.reloadblocklist", "srv", "none", {"mut", "dag", "noctl"}, <<>>, <<>>),
+    \* third world: the older label stack (labelblk <-> labelvol, labelarray)
+    EP("lb.raw",         "lb",   "bin",  {"mut", "extendrej", "wleg"}, << F("voxels", "blob", {}) >>, Vol3(TRUE)),
+    EP("lb.getraw",      "lb",   "none", {"wleg"}, <<>>, Vol3(TRUE)),
+    EP("lb.getlabel",    "lb",   "none", {"wleg"}, <<>>, << F("point", "ucoord", {}) >>),
+    EP("lb.getblocks",   "lb",   "none", {"wleg"}, <<>>, << F("size", "usize", {}), F("offset", "uoff", {}) >>),
+    EP("lb.resolution",  "lb",   "json", {"mut", "persist", "wleg"}, Resolution, <<>>),
+    EP("lv.split",       "lv",   "bin",  {"mut", "wleg"}, RLEPayload, << F("label", "ulabel", {"l0rej"}) >>),
+    EP("lv.splitcoarse", "lv",   "bin",  {"mut", "wleg"}, RLEPayload, << F("label", "ulabel", {"l0rej"}) >>),
+    EP("lv.merge",       "lv",   "json", {"mut", "wleg"}, LabelList(3), <<>>),
+    \* (the sparse volume of a resync is read after the request has been answered)
+    EP("lv.resync",      "lv",   "bin",  {"mut", "emptyok", "wleg"}, Late(RLEPayload), << F("label", "ulabel", {"l0rej"}) >>),
+    EP("lv.sparsevol",   "lv",   "none", {"wleg"}, <<>>, << F("label", "ulabel", {"l0rej"}) >>),
+    EP("lv.sparsevolbypoint", "lv", "none", {"wleg"}, <<>>, << F("point", "ucoord", {}) >>),
+    EP("lv.sparsevolcoarse", "lv", "none", {"wleg"}, <<>>, << F("label", "ulabel", {"l0rej"}) >>),
+    EP("la.blocks",      "la",   "bin",  {"mut", "emptyok", "blocks", "wleg"}, BlockStream, <<>>),
+    EP("la.raw",         "la",   "bin",  {"mut", "extendrej", "wleg"}, << F("voxels", "blob", {}) >>, Vol3(TRUE)),
+    EP("la.getraw",      "la",   "none", {"wleg"}, <<>>, Vol3(TRUE)),
+    EP("la.getblocks",   "la",   "none", {"wleg"}, <<>>, << F("size", "usize", {}), F("offset", "uoff", {}) >>),
+    EP("la.specificblocks", "la", "none", {"wleg"}, <<>>, << F("blocks", "ucoord", {"query"}) >>),
+    EP("la.merge",       "la",   "json", {"mut", "wleg"}, LabelList(3), <<>>),
+    EP("la.split",       "la",   "bin",  {"mut", "wleg"}, RLEPayload, << F("label", "ulabel", {"l0rej"}) >>),
+    EP("la.splitcoarse", "la",   "bin",  {"mut", "wleg"}, RLEPayload, << F("label", "ulabel", {"l0rej"}) >>),
+    EP("la.sparsevol",   "la",   "none", {"wleg"}, <<>>, << F("label", "ulabel", {"l0rej"}) >>),
+    \* label counts fed by the annotation sync
+    EP("lann.elements",  "lann", "json", {"mut", "wleg"}, AnnElements, <<>>),
+    EP("lann.delete",    "lann", "none", {"mut", "wleg"}, <<>>, << F("point", "ucoord", {}) >>),
+    EP("lsz.count",      "lsz",  "none", {"wleg"}, <<>>, << F("label", "ulabel", {}), F("type", "uenum", {}) >>),
+    EP("lsz.counts",     "lsz",  "json", {"wleg"}, LabelList(2), << F("type", "uenum", {}) >>),
+    EP("lsz.top",        "lsz",  "none", {"wleg"}, <<>>, << F("n", "uint", {}), F("type", "uenum", {}) >>),
+    EP("lsz.threshold",  "lsz",  "none", {"wleg"}, <<>>, << F("t", "uint", {}), F("type", "uenum", {}), F("offset", "uint", {"query"}), F("n", "uint", {"query"}) >>),
+    EP("lsz.reload",     "lsz",  "none", {"mut", "wleg"}, <<>>, <<>>),
+    EP("lsz.sync",       "lsz",  "json", {"mut", "persist", "emptyok", "wleg"}, SyncObj, <<>>),
+    \* blobs per supervoxel
+    EP("tsv.load",       "tsv",  "bin",  {"mut", "emptyok", "wleg"}, TarFile, <<>>),
+    EP("tsv.supervoxel", "tsv",  "bin",  {"mut", "emptyok", "wleg"}, << F("value", "rest", {"midok", "cutok"}) >>, << F("id", "ulabel", {"l0rej"}) >>),
+    EP("tsv.getsupervoxel", "tsv", "none", {"wleg"}, <<>>, << F("id", "ulabel", {"l0rej"}) >>),
+    EP("tsv.tarfile",    "tsv",  "none", {"wleg"}, <<>>, << F("label", "ulabel", {"l0rej"}) >>),
+    EP("tsv.missing",    "tsv",  "none", {"wleg"}, <<>>, << F("label", "ulabel", {"l0rej"}) >>),
+    EP("tsv.exists",     "tsv",  "json", {"wleg"}, LabelList(2), <<>>),
+    \* tiles
+    EP("tiles.metadata", "tiles", "json", {"mut", "persist", "wleg"}, TileSpec, <<>>),
+    EP("tiles.tile",     "tiles", "bin", {"mut", "emptyok", "wleg"}, << F("image", "rest", {"midok", "cutok"}) >>,
+                                          << F("shape", "ushape", {}), F("scaling", "uint", {}), F("coord", "ucoord", {}) >>),
+    EP("tiles.gettile",  "tiles", "none", {"wleg"}, <<>>, << F("shape", "ushape", {}), F("scaling", "uint", {}), F("coord", "ucoord", {}) >>),
+    EP("tiles.tilekey",  "tiles", "none", {"wleg"}, <<>>, << F("shape", "ushape", {}), F("scaling", "uint", {}), F("coord", "ucoord", {}) >>),
+    EP("tiles.getraw",   "tiles", "none", {"wleg"}, <<>>, << F("shape", "ushape", {}), F("size", "usize", {}), F("offset", "uoff", {}) >>),
+    \* read-side format options (first world)
+    EP("lm.getblocks.fmt", "lm", "none", {}, <<>>, << F("compression", "uenum", {"query"}), F("supervoxels", "uenum", {"query"}) >>),
+    EP("lm.specificblocks.fmt", "lm", "none", {}, <<>>, << F("compression", "uenum", {"query"}), F("supervoxels", "uenum", {"query"}) >>),
+    EP("lm.sparsevol.fmt", "lm", "none", {}, <<>>, << F("label", "ulabel", {"l0rej"}), F("format", "uenum", {"query"}),
+                                                       F("minx", "uint", {"query"}), F("maxx", "uint", {"query"}), F("exact", "uenum", {"query"}) >>),
+    EP("lm.getraw.fmt",  "lm",   "none", {}, <<>>, << F("compression", "uenum", {"query"}) >>),
+    EP("lm.headsparsevol", "lm", "none", {}, <<>>, << F("label", "ulabel", {"l0rej"}) >>),
+    EP("gray.getraw.fmt", "gray", "none", {}, <<>>, << F("format", "uenum", {"opt"}), F("compression", "uenum", {"query"}) >>),
+    \* endpoints of the first-round datatypes that were not in the table
+    EP("kv.delkey",      "kv",   "none", {"mut"}, <<>>, << F("key", "ukey", {}) >>),
+    EP("kv.headkey",     "kv",   "none", {}, <<>>, << F("key", "ukey", {}) >>),
+    EP("kv.getkeyvalues.pb", "kv", "bin", {"emptyok"}, PBKeys, <<>>),
+    EP("kv.getkeyvalues.tar", "kv", "json", {}, KeyList, <<>>),
+    \* (a schema is stored as it comes: a blob that the validator and other tools interpret later)
+    EP("nj.schema",      "nj",   "json", {"mut", "emptyok", "freeform"}, NJSchema, << F("kind", "uenum", {}) >>),
+    EP("nj.delkey",      "nj",   "none", {"mut"}, <<>>, << F("id", "ulabel", {}) >>),
+    EP("nj.key.cond",    "nj",   "json", {"mut"}, NeuronJSON, << F("id", "ulabel", {}), F("conditionals", "ukey", {"query"}), F("replace", "uenum", {"query"}) >>),
+    \* (answered for versions held in memory only: no positive control in the harness world)
+    EP("nj.fieldtimes",  "nj",   "none", {"noctl"}, <<>>, <<>>),
+    EP("ann.roi",        "ann",  "none", {}, <<>>, << F("roi", "ukey", {}) >>),
+    EP("ann.scan",       "ann",  "none", {}, <<>>, << F("byCoord", "uenum", {"query"}), F("keysOnly", "uenum", {"query"}) >>),
+    EP("ann.reload",     "ann",  "none", {"mut"}, <<>>, << F("check", "uenum", {"query"}), F("inmemory", "uenum", {"query"}) >>),
+    EP("ann.labels",     "ann",  "json", {"mut"}, AnnLabels, <<>>),
+    EP("roi.delete",     "roi",  "none", {"mut"}, <<>>, <<>>),
+    EP("roi.partition.opt", "roi", "none", {}, <<>>, << F("batchsize", "uint", {"zerorej", "query"}), F("optimized", "uenum", {"query"}) >>),
+    EP("lm.existinglabels", "lm", "none", {}, <<>>, <<>>),
+    EP("lm.mapstats",    "lm",   "none", {}, <<>>, <<>>),
+    EP("lm.indicescompressed", "lm", "json", {}, LabelList(2), <<>>),
+    EP("lm.mutations",   "lm",   "none", {}, <<>>, << F("userid", "ukey", {"query"}) >>)
+>>
+
+\* (rows of the growth round carry the flag "g2": the quick tier samples their cases)
+Endpoints == BaseEndpoints \o [i \in 1..Len(GrowthEndpoints) |-> [GrowthEndpoints[i] EXCEPT !.f = @ \cup {"g2"}]]
+
 EPIndex == 1..Len(Endpoints)
 
 (***************************************************************************)
@@ -302,7 +491,7 @@ EPIndex == 1..Len(Endpoints)
 BinKinds  == {"hdr", "coord", "dim", "len", "cnt", "idx", "lbl", "run", "blob", "rest", "gz", "tag", "vint"}
 JSONKinds == {"jint", "jstr", "jlist", "jobj", "jkey"}
 ArgKinds  == {"auuid", "aname", "atype", "aword", "apoint", "afile", "aint", "akey", "ainput"}
-URLKinds  == {"usize", "uoff", "ucoord", "ulabel", "uint", "ukey", "ushape"} \cup ArgKinds
+URLKinds  == {"usize", "uoff", "ucoord", "ulabel", "uint", "ukey", "ushape", "uenum"} \cup ArgKinds
 
 ClassesOf(fld) ==
     LET k == fld.k IN
@@ -316,6 +505,12 @@ ClassesOf(fld) ==
     \cup (IF k = "jstr" /\ "triple" \in fld.f THEN {"cfgnonnum", "cfgzero", "cfgneg", "cfghuge"} ELSE {})
     \cup (IF k \in {"jlist", "jobj"} THEN {"jempty"} ELSE {})
     \cup (IF k = "jkey" THEN {"jkeybad"} ELSE {})
+    \* growth round: a fixed-arity list with one member fewer / more; numbers and names inside strings
+    \cup (IF k = "jlist" /\ "fixed" \in fld.f THEN {"jshort", "jlong"} ELSE {})
+    \cup (IF k = "jstr" /\ "num" \in fld.f THEN {"numnonnum", "numzero", "numneg", "numhuge"} ELSE {})
+    \cup (IF k = "jstr" /\ "syncnames" \in fld.f THEN {"syncself", "syncmissing", "syncwrongtype", "syncdup", "syncmulti", "syncempty"} ELSE {})
+    \cup (IF k = "jstr" /\ "uuidref" \in fld.f THEN {"refunknown", "refopen", "refdup"} ELSE {})
+    \cup (IF k = "uenum" THEN {"unknownval", "long"} ELSE {})
     \cup (IF k \in {"usize", "uoff", "ucoord"} THEN {"nonnum", "neg", "overflow", "short", "zero"} ELSE {})
     \* (nohuge: the cost of answering grows with the value; large values are legitimately expensive)
     \cup (IF k \in {"usize", "uoff", "ucoord"} /\ "nohuge" \notin fld.f THEN {"huge"} ELSE {})
@@ -350,14 +545,25 @@ ExpectField(ep, cls, fld) ==
       [] cls = "idx_out"      -> "reject"
       [] cls = "zero"         -> IF "zerorej" \in fld.f THEN "reject" ELSE "any"
       [] cls \in {"flip", "extreme"} -> "any"
-      [] cls = "jtrunc"       -> "reject"
-      [] cls = "jtype"        -> IF "typed" \in fld.f THEN "reject" ELSE "any"
+      [] cls = "jtrunc"       -> IF "freeform" \in ep.f THEN "any" ELSE "reject"
+      [] cls = "jtype"        -> IF "typed" \in fld.f /\ "freeform" \notin ep.f THEN "reject" ELSE "any"
       [] cls = "jneg"         -> IF "u64" \in fld.f THEN "reject" ELSE "any"
       [] cls \in {"jhuge", "jfrac"} -> IF fld.f \cap {"u64", "i32"} # {} THEN "reject" ELSE "any"
       [] cls = "jenum"        -> "reject"
       [] cls = "jempty"       -> "any"
       [] cls = "jkeybad"      -> "reject"
       [] cls = "cfgnonnum"    -> "reject"
+      \* a list of the wrong arity may be accepted or refused, but must do no harm (follow-ups)
+      [] cls \in {"jshort", "jlong"} -> "any"
+      [] cls = "numnonnum"    -> "reject"
+      [] cls \in {"numzero", "numneg", "numhuge"} -> "any"
+      \* an instance that does not exist cannot be synced with; odd but existing partners may be refused or not
+      [] cls = "syncmissing"  -> "reject"
+      [] cls \in {"syncself", "syncwrongtype", "syncdup", "syncmulti", "syncempty"} -> "any"
+      \* a parent of a merge must be an existing, committed version
+      [] cls \in {"refunknown", "refopen"} -> "reject"
+      [] cls = "refdup"       -> "any"
+      [] cls = "unknownval"   -> "any"
       [] cls \in {"cfgzero", "cfgneg", "cfghuge"} -> "any"
       [] cls = "nonnum"       -> "reject"
       [] cls = "overflow"     -> "reject"
@@ -381,25 +587,49 @@ ExpectField(ep, cls, fld) ==
 ExpectBody(ep, cls) ==
     CASE cls = "empty"   -> IF "emptyok" \in ep.f THEN "any" ELSE "reject"
       [] cls = "extend"  -> IF "extendrej" \in ep.f THEN "reject" ELSE "any"
-      [] cls = "jgarbage" -> "reject"
+      [] cls = "jgarbage" -> IF "freeform" \in ep.f THEN "any" ELSE "reject"
       [] OTHER           -> "any"
 
-\* a hostile case: endpoint index, part ("body" | "url" | "whole"), position, class
+\* a hostile case: endpoint index, part ("body" | "url" | "whole" | "geom" | "req"), position, class
+
+\* block geometries that differ from the instance's BlockSize (32^3 in the harness worlds)
+GeomShapes == << "cube16", "cube64", "aniso", "solid16", "solid64" >>
+
+\* request-level classes.  Every POST / PUT / DELETE to a versioned instance at a committed version is
+\* refused and changes nothing; a version that does not exist cannot be addressed at all
+ReqClasses(ep) ==
+    IF "rpc" \in ep.f THEN {}
+    \* (noverb: the URL of the row addresses a control key of the harness: a changing verb would
+    \* legitimately change what the snapshot treats as never named)
+    ELSE (IF "noverb" \in ep.f THEN {} ELSE {"verb_put", "verb_head", "verb_options", "verb_delete", "verb_patch"})
+         \cup (IF "dag" \notin ep.f THEN {"noversion", "throttle"} ELSE {})
+         \cup (IF "dag" \notin ep.f /\ "mut" \in ep.f THEN {"locked"} ELSE {})
+
+ExpectReq(ep, cls) ==
+    CASE cls \in {"locked", "noversion"} -> "reject"
+      [] OTHER -> "any"
 
 CasesOf(e) ==
     LET ep == Endpoints[e] IN
     {[e |-> e, part |-> "body", pos |-> p, cls |-> c] : <<p, c>> \in
         {pc \in (1..Len(ep.fields)) \X {"trunc_before", "trunc_mid", "flip", "inflate", "zero", "idx_out", "extreme",
                                          "jtrunc", "jtype", "jneg", "jhuge", "jfrac", "jenum", "jempty", "jkeybad",
-                                         "cfgnonnum", "cfgzero", "cfgneg", "cfghuge"} :
+                                         "cfgnonnum", "cfgzero", "cfgneg", "cfghuge",
+                                         "jshort", "jlong", "numnonnum", "numzero", "numneg", "numhuge",
+                                         "syncself", "syncmissing", "syncwrongtype", "syncdup", "syncmulti", "syncempty",
+                                         "refunknown", "refopen", "refdup"} :
             pc[2] \in ClassesOf(ep.fields[pc[1]])
             \* cutting in front of the very first field is the "empty" class
             /\ ~(pc[1] = 1 /\ pc[2] \in {"trunc_before", "jtrunc"})}}
     \cup {[e |-> e, part |-> "url", pos |-> p, cls |-> c] : <<p, c>> \in
         {pc \in (1..Len(ep.url)) \X {"nonnum", "neg", "huge", "overflow", "short", "zero", "label0", "labelmax", "long", "weird", "missing",
-                                      "unknown", "nofile", "isdir", "emptyfile", "garbagefile", "garbage", "big"} :
+                                      "unknown", "nofile", "isdir", "emptyfile", "garbagefile", "garbage", "big", "unknownval"} :
             pc[2] \in ClassesOf(ep.url[pc[1]])}}
     \cup {[e |-> e, part |-> "whole", pos |-> 0, cls |-> c] : c \in BodyClasses(ep)}
+    \* a WELL-FORMED label block of another geometry than the instance's (position = index into GeomShapes)
+    \cup (IF "blocks" \in ep.f THEN {[e |-> e, part |-> "geom", pos |-> i, cls |-> GeomShapes[i]] : i \in 1..Len(GeomShapes)} ELSE {})
+    \* the request as a whole: another verb, a committed or unknown target version, the throttle option
+    \cup {[e |-> e, part |-> "req", pos |-> 0, cls |-> c] : c \in ReqClasses(ep)}
 
 AllCases == UNION {CasesOf(e) : e \in EPIndex}
 
@@ -407,31 +637,94 @@ Expect(c) ==
     LET ep == Endpoints[c.e] IN
     IF c.part = "body" THEN ExpectField(ep, c.cls, ep.fields[c.pos])
     ELSE IF c.part = "url" THEN ExpectField(ep, c.cls, ep.url[c.pos])
+    ELSE IF c.part = "geom" THEN "reject"
+    ELSE IF c.part = "req" THEN ExpectReq(ep, c.cls)
     ELSE ExpectBody(ep, c.cls)
 
 Relabelling == {"lm.split", "lm.splitsv", "lm.merge", "lm.cleave", "lm.renumber", "lm.mappings"}
 
-\* scopes a request to the endpoint may change (requests to labelmap "lm" reach the synced annotation)
-MayChange(e) ==
+\* scopes a request to the endpoint may change once it is a mutating request (requests to labelmap
+\* "lm" reach the synced annotation, block writes to the labelblk "lb" reach the labelvol "lv" and
+\* back, element posts reach the label counts "lsz")
+ScopeNames(e) ==
     LET ep == Endpoints[e] IN
-    IF "mut" \notin ep.f THEN {}
-    ELSE IF ep.scope = "lm" THEN
+    IF ep.scope = "lm" THEN
         {"lm", "ann"} \cup (IF ep.name \in Relabelling THEN {"lmorig"} ELSE {})
-                      \cup (IF "rpc" \in ep.f THEN {"meta"} ELSE {})   \* commands are logged in the node log
+                      \cup (IF "rpc" \in ep.f \/ "persist" \in ep.f THEN {"meta"} ELSE {})   \* commands are logged in the node log
     ELSE IF ep.scope = "newinst" THEN {"newinst", "meta"}   \* a new instance is logged in the repo log
     ELSE IF "rpc" \in ep.f THEN {ep.scope, "meta"}   \* commands are logged in the node log
+    \* (a block write to the labelblk reaches the labelvol and the annotation synced with both; a split
+    \* or merge of the labelvol relabels the labelblk; element posts reach the label counts)
+    ELSE IF ep.scope \in {"lb", "lv"} THEN {"lb", "lv", "lann", "lsz"} \cup (IF "persist" \in ep.f THEN {"meta"} ELSE {})
+    ELSE IF ep.scope = "lann" THEN {"lann", "lsz"}
+    ELSE IF ep.scope = "srv" THEN {}
+    \* saving instance metadata is recorded in the repository (log, time of update)
+    ELSE IF "persist" \in ep.f THEN {ep.scope, "meta"}
     ELSE {ep.scope}
 
+MayChange(e) == IF "mut" \notin Endpoints[e].f THEN {} ELSE ScopeNames(e)
+
 Allowed(c) == IF Expect(c) = "reject" THEN {"4xx"} ELSE {"2xx", "4xx"}
+
+\* a request-level case that turns the request into a mutating one: a changing verb addresses the
+\* resource of the endpoint (DELETE of a key names the key)
+\* (the handlers of several datatypes treat every verb other than GET as a POST)
+VerbMutates(c) == c.part = "req" /\ c.cls \in {"verb_put", "verb_delete", "verb_patch", "verb_options"}
+\* a request-level case that can reach nothing: the version is committed or does not exist
+Unreachable(c) == c.part = "req" /\ c.cls \in {"locked", "noversion"}
+Mutating(c) == IF c.part = "wellformed" THEN "mut" \in Endpoints[c.e].f
+               ELSE ~Unreachable(c) /\ ("mut" \in Endpoints[c.e].f \/ VerbMutates(c))
 
 \* what one hostile case names: a mutated URL, a mutated block / span coordinate or a
 \* randomised body of a request to "lm" may point the request at the original blocks
 MayChangeCase(c) ==
     LET ep == Endpoints[c.e] IN
+    IF Unreachable(c) THEN {}
+    ELSE IF VerbMutates(c) THEN ScopeNames(c.e) \cup (IF ep.scope = "lm" THEN {"lmorig"} ELSE {})
+    ELSE
     MayChange(c.e) \cup
     (IF "mut" \in ep.f /\ ep.scope = "lm" /\
-        (c.part \in {"url", "whole"} \/ (c.part = "body" /\ ep.fields[c.pos].k = "coord"))
+        (c.part \in {"url", "whole", "geom"} \/ (c.part = "body" /\ ep.fields[c.pos].k = "coord"))
      THEN {"lmorig"} ELSE {})
+
+(***************************************************************************)
+(* Follow-up requests: after an ACCEPTED mutating request (hostile or not)  *)
+(* the well-formed requests below are sent to the same version, one by one. *)
+(* They read the touched region through every format and mutate it again    *)
+(* (a stored oddity must not turn a later well-formed request into a server *)
+(* error).  The harness implements exactly these names, in this order.      *)
+(***************************************************************************)
+FollowLM == << "lm.fu.info", "lm.fu.metadata", "lm.fu.index11", "lm.fu.raw", "lm.fu.rawsv", "lm.fu.blocks", "lm.fu.blocks.unc",
+               "lm.fu.blocks.lz4sv", "lm.fu.specific.gzip", "lm.fu.sparsevol11", "lm.fu.sparsevol1.blocks",
+               "lm.fu.sparsevol1.srles", "lm.fu.sizes", "lm.fu.label", "lm.fu.maxlabel", "lm.fu.mappings",
+               "lm.fu.rawpost", "lm.fu.rawpost.unaligned", "lm.fu.blockspost", "lm.fu.merge.touched", "lm.fu.merge",
+               "lm.fu.cleave", "lm.fu.splitsv", "lm.fu.split", "lm.fu.raw" >>
+FollowUps(scope) ==
+    CASE scope \in {"lm", "lmorig"} -> FollowLM
+      [] scope = "lmi"  -> << "lmi.fu.rawsv", "lmi.fu.blocks", "lmi.fu.rawpost", "lmi.fu.ingest", "lmi.fu.rawsv" >>
+      [] scope = "ann"  -> << "ann.fu.post", "ann.fu.move", "ann.fu.delete", "ann.fu.label1", "ann.fu.tag", "ann.fu.elements",
+                              "ann.fu.all", "ann.fu.blocks", "ann.fu.lmwrite", "ann.fu.lmmerge", "ann.fu.label1" >>
+      [] scope = "kv"   -> << "kv.fu.post", "kv.fu.get", "kv.fu.keys", "kv.fu.range", "kv.fu.keyvalues", "kv.fu.delete" >>
+      [] scope = "nj"   -> << "nj.fu.post", "nj.fu.get", "nj.fu.all", "nj.fu.query", "nj.fu.fields", "nj.fu.keys", "nj.fu.delete" >>
+      [] scope = "roi"  -> << "roi.fu.get", "roi.fu.ptquery", "roi.fu.mask", "roi.fu.partition", "roi.fu.post", "roi.fu.delete" >>
+      [] scope = "gray" -> << "gray.fu.info", "gray.fu.metadata", "gray.fu.get", "gray.fu.blocks", "gray.fu.slice", "gray.fu.iso",
+                              "gray.fu.post", "gray.fu.get" >>
+      [] scope = "newinst" -> << "newinst.fu.info", "newinst.fu.rawpost", "newinst.fu.rawget", "newinst.fu.label", "newinst.fu.sparsevol" >>
+      [] scope = "meta" -> << "meta.fu.repoinfo", "meta.fu.nodelog", "meta.fu.status" >>
+      [] scope = "srv"  -> << "srv.fu.info", "srv.fu.throttled", "srv.fu.kv" >>
+      [] scope = "lms"  -> << "lms.fu.raw0", "lms.fu.raw1", "lms.fu.raw2", "lms.fu.blocks1", "lms.fu.specific2", "lms.fu.sparsevol",
+                              "lms.fu.sparsevol1", "lms.fu.rawpost", "lms.fu.blockspost.downres", "lms.fu.merge", "lms.fu.raw1" >>
+      [] scope = "lb"   -> << "lb.fu.info", "lb.fu.metadata", "lb.fu.get", "lb.fu.label", "lb.fu.blocks", "lb.fu.post", "lb.fu.lvsparsevol", "lb.fu.get" >>
+      [] scope = "lv"   -> << "lv.fu.sparsevol1", "lv.fu.sparsevol5", "lv.fu.coarse", "lv.fu.bypoint", "lv.fu.lbget", "lv.fu.merge", "lv.fu.split", "lv.fu.sparsevol1" >>
+      [] scope = "la"   -> << "la.fu.get", "la.fu.blocks", "la.fu.specific", "la.fu.sparsevol1", "la.fu.coarse", "la.fu.post", "la.fu.merge", "la.fu.split", "la.fu.get" >>
+      [] scope = "lann" -> << "lann.fu.post", "lann.fu.label", "lann.fu.count", "lann.fu.top", "lann.fu.delete", "lann.fu.count" >>
+      [] scope = "lsz"  -> << "lann.fu.post", "lann.fu.count", "lann.fu.top", "lsz.fu.threshold", "lann.fu.delete", "lann.fu.count" >>
+      [] scope = "tsv"  -> << "tsv.fu.get", "tsv.fu.tarfile", "tsv.fu.missing", "tsv.fu.exists", "tsv.fu.post", "tsv.fu.get" >>
+      [] scope = "tiles" -> << "tiles.fu.metadata", "tiles.fu.tile", "tiles.fu.tile1", "tiles.fu.raw", "tiles.fu.post", "tiles.fu.tile" >>
+      [] scope = "g16"  -> << "g16.fu.info", "g16.fu.get", "g16.fu.blocks", "g16.fu.slice", "g16.fu.post", "g16.fu.get" >>
+      [] scope = "rgba" -> << "rgba.fu.info", "rgba.fu.get", "rgba.fu.blocks", "rgba.fu.slice", "rgba.fu.post", "rgba.fu.get" >>
+      [] OTHER -> << >>
+FollowOf(c) == FollowUps(Endpoints[c.e].scope)
 
 (***************************************************************************)
 (* PART 1: the Gate state machine.                                          *)
@@ -440,8 +733,10 @@ VARIABLES phase,    \* "idle" | "sent" | "settled"
           cur,      \* the hostile case in flight, or NoCase; well-formed requests are WF(e)
           resp,     \* response class of the request in flight
           alive,    \* the process
-          dirty     \* scopes changed since the last snapshot
-vars == <<phase, cur, resp, alive, dirty>>
+          dirty,    \* scopes changed since the last snapshot
+          fu,       \* number of follow-up requests answered
+          fresp     \* response class of the last follow-up
+vars == <<phase, cur, resp, alive, dirty, fu, fresp>>
 
 NoCase == [e |-> 0, part |-> "none", pos |-> 0, cls |-> "none"]
 WF(e)  == [e |-> e, part |-> "wellformed", pos |-> 0, cls |-> "none"]
@@ -450,41 +745,53 @@ Requests == AllCases \cup {WF(e) : e \in EPIndex}
 AllowedResp(c) == IF c.part = "wellformed" THEN {"2xx", "4xx"} ELSE Allowed(c)
 Names(c) == IF c.part = "wellformed" THEN MayChange(c.e) ELSE MayChangeCase(c)
 
-Init == phase = "idle" /\ cur = NoCase /\ resp = "none" /\ alive = TRUE /\ dirty = {}
+Init == phase = "idle" /\ cur = NoCase /\ resp = "none" /\ alive = TRUE /\ dirty = {} /\ fu = 0 /\ fresp = "none"
 
 Send(c) == /\ phase = "idle" /\ alive
            /\ phase' = "sent" /\ cur' = c
            /\ resp' \in AllowedResp(c)
            /\ dirty' \in SUBSET Names(c)
-           /\ UNCHANGED alive
+           /\ UNCHANGED <<alive, fu, fresp>>
 \* background work started by the request finishes: it may touch the named scopes only
 Settle == /\ phase = "sent"
           /\ phase' = "settled"
           /\ \E d \in SUBSET Names(cur) : dirty' = dirty \cup d
-          /\ UNCHANGED <<cur, resp, alive>>
+          /\ UNCHANGED <<cur, resp, alive, fu, fresp>>
+\* an accepted mutating request is followed up: the snapshot has been compared (dirty is judged and
+\* forgotten), then each follow-up is answered - there is no server-error class and no way to die
+Owed(c, r) == IF r = "2xx" /\ Mutating(c) THEN Len(FollowOf(c)) ELSE 0
+Follow == /\ phase = "settled" /\ alive /\ fu < Owed(cur, resp)
+          /\ fu' = fu + 1 /\ fresp' \in {"2xx", "4xx"}
+          /\ dirty' = {}
+          /\ UNCHANGED <<phase, cur, resp, alive>>
 \* liveness probe answered and snapshot taken
-Probe == /\ phase = "settled" /\ alive
-         /\ phase' = "idle" /\ cur' = NoCase /\ resp' = "none" /\ dirty' = {}
+Probe == /\ phase = "settled" /\ alive /\ fu = Owed(cur, resp)
+         /\ phase' = "idle" /\ cur' = NoCase /\ resp' = "none" /\ dirty' = {} /\ fu' = 0 /\ fresp' = "none"
          /\ UNCHANGED alive
 
-Next == (\E c \in Requests : Send(c)) \/ Settle \/ Probe
+\* (the guard is repeated in front of the quantifier so that TLC does not walk through every request
+\* of the table in states in which none can be sent)
+Next == (phase = "idle" /\ \E c \in Requests : Send(c)) \/ Settle \/ Follow \/ Probe
 Spec == Init /\ [][Next]_vars
 
 TypeOK == /\ phase \in {"idle", "sent", "settled"}
           /\ resp \in {"none", "2xx", "4xx"}
           /\ alive \in BOOLEAN
           /\ dirty \subseteq Scopes
+          /\ fu \in Nat /\ fresp \in {"none", "2xx", "4xx"}
 
 \* "No request can terminate or wedge the server process; later requests are still served."
 Inv_C20_Alive == alive /\ ENABLED Next
 \* "...never answered with an internal error": there is no 5xx class in the design
-Inv_C20_NoServerError == resp \in {"none", "2xx", "4xx"}
+Inv_C20_NoServerError == resp \in {"none", "2xx", "4xx"} /\ fresp \in {"none", "2xx", "4xx"}
 \* "A request whose payload is malformed ... is answered with a client error"
 Inv_C20_MalformedRejected ==
     (phase # "idle" /\ cur.part \notin {"wellformed", "none"} /\ Expect(cur) = "reject") => resp = "4xx"
 \* "...and leaves everything stored under keys or blocks it did not name reading back as before"
 Inv_C20_Harmless == phase # "idle" => dirty \subseteq Names(cur)
-Inv_C20_ReadOnlyHarmless == (phase # "idle" /\ "mut" \notin Endpoints[cur.e].f) => dirty = {}
+Inv_C20_ReadOnlyHarmless == (phase # "idle" /\ ~Mutating(cur)) => dirty = {}
+\* follow-ups are owed to accepted mutations only, and a refused request owes none
+Inv_C20_FollowUps == (phase # "idle" /\ fu > 0) => (resp = "2xx" /\ Mutating(cur) /\ fu <= Len(FollowOf(cur)))
 
 (***************************************************************************)
 (* Table-level claims (sanity of the decision table itself).                *)
@@ -498,8 +805,10 @@ TableClaims ==
     \* every endpoint has at least one hostile case that must be rejected or one URL case
     /\ \A e \in EPIndex : CasesOf(e) # {}
     \* a request that names nothing may change nothing
-    /\ \A c \in AllCases : ("mut" \notin Endpoints[c.e].f) => MayChangeCase(c) = {}
-    /\ \A c \in AllCases : MayChange(c.e) \subseteq MayChangeCase(c)
+    /\ \A c \in AllCases : ~Mutating(c) => MayChangeCase(c) = {}
+    /\ \A c \in AllCases : ~Unreachable(c) => MayChange(c.e) \subseteq MayChangeCase(c)
+    \* a row that is not flagged "mut" owes no follow-ups unless a verb made it mutating
+    /\ \A c \in AllCases : Unreachable(c) => Expect(c) = "reject"
     \* names are unique
     /\ \A a, b \in EPIndex : Endpoints[a].name = Endpoints[b].name => a = b
 
@@ -555,9 +864,11 @@ Emit ==
                                 [n |-> Endpoints[e].fields[i].n, k |-> Endpoints[e].fields[i].k, f |-> Endpoints[e].fields[i].f]],
                            url |-> [i \in 1..Len(Endpoints[e].url) |->
                                 [n |-> Endpoints[e].url[i].n, k |-> Endpoints[e].url[i].k, f |-> Endpoints[e].url[i].f]],
-                           maychange |-> MayChange(e)]],
+                           maychange |-> MayChange(e),
+                           followups |-> FollowUps(Endpoints[e].scope)]],
                        cases |-> {[e |-> c.e, part |-> c.part, pos |-> c.pos, cls |-> c.cls,
-                                   expect |-> Expect(c), allowed |-> Allowed(c), maychange |-> MayChangeCase(c)] : c \in AllCases},
+                                   expect |-> Expect(c), allowed |-> Allowed(c), maychange |-> MayChangeCase(c),
+                                   mutating |-> Mutating(c)] : c \in AllCases},
                        anncases |-> {[b1 |-> c.b1, b2 |-> c.b2, p1 |-> c.p1, p2 |-> c.p2, crossing |-> AnnCrossing(c),
                                       view |-> [t \in AnnTags |-> TagView(c, t)]] : c \in AnnCases},
                        njcases |-> {[stored |-> c[1], query |-> c[2], expect |-> NJExpect(c)] : c \in NJQueryCases}]))
